@@ -29,6 +29,7 @@ import (
 	"time"
 
 	"github.com/miekg/dns"
+	"github.com/semihalev/sdns/internal/dnsname"
 )
 
 // ------------------------------------------------------------- records
@@ -1018,8 +1019,8 @@ func TestVerifC14Sig(t *testing.T) {
 	if !time.Unix(vC14Inception, 0).Before(time.Now()) || !time.Unix(vC14Expiration, 0).After(time.Now()) {
 		t.Fatal("fixed validity window no longer contains the present")
 	}
-	// spread the expensive keys evenly over the run (about 42% of the cases reach pick)
-	verifyCases := float64(n) * 0.42
+	// spread the expensive keys evenly over the run (about 38% of the cases reach pick)
+	verifyCases := float64(n) * 0.38
 	pr2 := 1.2 * float64(budget2) / verifyCases
 	pr1 := 1.6 * float64(budget1) / verifyCases
 	pick := func() *vC14SigKey {
@@ -1055,9 +1056,9 @@ func TestVerifC14Sig(t *testing.T) {
 			vC14CaseSigned(tr, r, cheap)
 		case x < 40:
 			vC14CaseBinding(tr, r, cheap)
-		case x < 82:
+		case x < 78:
 			vC14CaseVerify(tr, r, pick(), keys)
-		case x < 93:
+		case x < 88:
 			vC14CaseOneSig(tr, r, cheap, keys)
 		default:
 			vC14CaseMsg(tr, r, cheap)
@@ -1429,65 +1430,313 @@ func vC14CaseOneSig(tr *vC14Trace, r *rand.Rand, cheap []*vC14SigKey, keys []*vC
 		map[string]any{"what": what, "candidates": len(cands), "sdns": fmt.Sprint(err), "reference_accepts": ref})
 }
 
-// ---- VerifyRRSIG on whole messages (Go-side reference only)
+// ---- VerifyRRSIG on whole messages: the code, an independent walk written with the
+// library's helpers, and the Coq model of the walk (CaseMsg)
+
+// vC14MItem is one record of a message section: a data record or an RRSIG.
+type vC14MItem struct {
+	rec *vC14RR
+	sig *dns.RRSIG
+}
+
+func (it vC14MItem) rr() dns.RR {
+	if it.sig != nil {
+		return it.sig
+	}
+	return it.rec.rr
+}
+
+func (it vC14MItem) coq() string {
+	if it.sig != nil {
+		return "MS " + vC14SigCoq(it.sig) + " " + vC14Bool(it.sig.ValidityPeriod(time.Time{}))
+	}
+	return "MR " + it.rec.coq()
+}
+
+func vC14ItemsCoq(l []vC14MItem) string {
+	var p []string
+	for _, it := range l {
+		p = append(p, it.coq())
+	}
+	return "[" + strings.Join(p, "; ") + "]"
+}
+
+func vC14ItemsRR(l []vC14MItem) []dns.RR {
+	var out []dns.RR
+	for _, it := range l {
+		out = append(out, it.rr())
+	}
+	return out
+}
+
+// vC14RefSynth is RFC 6672 §3.3 with the library's helpers only: some DNAME owns
+// a proper ancestor of the CNAME owner, and replacing that suffix by the DNAME
+// target gives the CNAME target.
+func vC14RefSynth(owner, target string, dnames [][2]string) bool {
+	idx := dns.Split(owner)
+	for _, d := range dnames {
+		dl := dns.CountLabel(d[0])
+		if dl == 0 || len(idx) <= dl || dns.CompareDomainName(d[0], owner) != dl {
+			continue
+		}
+		prefix := owner[:idx[len(idx)-dl]]
+		if strings.EqualFold(dns.Fqdn(prefix+d[1]), dns.Fqdn(target)) {
+			return true
+		}
+	}
+	return false
+}
+
+// vC14RefGroup is one RRset of the reference walk.
+type vC14RefGroup struct {
+	name  string
+	rtype uint16
+	class uint16
+	set   []dns.RR
+}
+
+// vC14RefWalk decides a message the way the property reads: every answer record
+// belongs to the signer zone; every RRset that takes part (not RRSIGs, not CNAMEs
+// an in-zone DNAME synthesises, in the authority section neither NS sets nor
+// out-of-zone remnants) has an RRSIG owned in the zone, of its name, type and
+// class, inside its validity period, of an implemented algorithm, that the
+// reference verifier accepts for the whole RRset under a key filed under the
+// signature's tag.  eq: every (key, signature, RRset) it looked at lies outside the
+// documented differences, so the code must give the same verdict.
+func vC14RefWalk(signer string, keyMap map[uint16][]*dns.DNSKEY, answer, ns []dns.RR) (ok, eq bool, groups []*vC14RefGroup) {
+	zone := strings.ToLower(dns.Fqdn(signer))
+	inZone := func(name string) bool { return dns.IsSubDomain(zone, strings.ToLower(name)) }
+	var dnames [][2]string
+	for _, sec := range [][]dns.RR{answer, ns} {
+		for _, rr := range sec {
+			if d, isD := rr.(*dns.DNAME); isD && inZone(d.Hdr.Name) {
+				dnames = append(dnames, [2]string{d.Hdr.Name, d.Target})
+			}
+		}
+	}
+	eq = true
+	foreign := false
+	find := func(rr dns.RR) *vC14RefGroup {
+		h := rr.Header()
+		for _, g := range groups {
+			if g.name == strings.ToLower(h.Name) && g.rtype == h.Rrtype && g.class == h.Class {
+				return g
+			}
+		}
+		g := &vC14RefGroup{name: strings.ToLower(h.Name), rtype: h.Rrtype, class: h.Class}
+		groups = append(groups, g)
+		return g
+	}
+	for si, sec := range [][]dns.RR{answer, ns} {
+		for _, rr := range sec {
+			h := rr.Header()
+			if h.Rrtype == dns.TypeRRSIG || (si == 1 && h.Rrtype == dns.TypeNS) {
+				continue
+			}
+			if c, isC := rr.(*dns.CNAME); isC && h.Rrtype == dns.TypeCNAME && vC14RefSynth(h.Name, c.Target, dnames) {
+				continue
+			}
+			if !inZone(h.Name) {
+				if si == 0 {
+					foreign = true
+				}
+				continue
+			}
+			g := find(rr)
+			g.set = append(g.set, rr)
+		}
+	}
+	if foreign {
+		return false, true, groups
+	}
+	ok = true
+	for _, g := range groups {
+		good := false
+		for _, rr := range append(append([]dns.RR{}, answer...), ns...) {
+			sg, isSig := rr.(*dns.RRSIG)
+			if !isSig || strings.ToLower(sg.Hdr.Name) != g.name || sg.TypeCovered != g.rtype || sg.Hdr.Class != g.class || !inZone(sg.Hdr.Name) {
+				continue
+			}
+			supported := false
+			for _, a := range []uint8{5, 7, 8, 10, 13, 14, 15} {
+				supported = supported || sg.Algorithm == a
+			}
+			for _, k := range keyMap[sg.KeyTag] {
+				eq = eq && vC14EqDomain(k, sg, g.set)
+				if rok, _ := vC14RefVerify(k, sg, g.set); rok && supported && sg.ValidityPeriod(time.Time{}) {
+					good = true
+				}
+			}
+		}
+		ok = ok && good
+	}
+	return ok, eq, groups
+}
+
+// vC14MsgOracles records, for every (signature, RRset it covers, candidate key), what
+// the hash functions and the elliptic primitives say; conflict: one (key, signature)
+// pair met two different messages with different verdicts (the tables are keyed by
+// the pair), in which case the case carries no Coq term.
+func vC14MsgOracles(keyMap map[uint16][]*dns.DNSKEY, groups []*vC14RefGroup, items []vC14MItem) (orcs, ecp, ev string, conflict bool) {
+	var ol, el, vl []string
+	seenMsg := map[string]bool{}
+	seenP := map[string]bool{}
+	seenV := map[string]bool{}
+	for _, it := range items {
+		sg := it.sig
+		if sg == nil {
+			continue
+		}
+		sgRaw, sgErr := base64.StdEncoding.DecodeString(sg.Signature)
+		for _, g := range groups {
+			if strings.ToLower(sg.Hdr.Name) != g.name || sg.TypeCovered != g.rtype || sg.Hdr.Class != g.class {
+				continue
+			}
+			var msg []byte
+			if lib, ok := vC14LibSigned(sg, g.set); ok {
+				msg = lib
+			} else if own, e2 := rrsigSignedData(sg, g.set); e2 == nil {
+				msg = own
+			}
+			if msg == nil {
+				continue
+			}
+			if !seenMsg[string(msg)] {
+				seenMsg[string(msg)] = true
+				ol = append(ol, vC14Oracle{msg: msg, hids: vC14HashIDFor(sg.Algorithm)}.coq())
+			}
+			if sgErr != nil {
+				continue
+			}
+			for _, k := range keyMap[sg.KeyTag] {
+				pub, e1 := base64.StdEncoding.DecodeString(k.PublicKey)
+				if e1 != nil {
+					continue
+				}
+				o := vC14CryptoOracle(k, sg, msg)
+				pk := fmt.Sprintf("(%s, %s)", vC14Hex(pub), vC14Bool(o.ecp))
+				id := fmt.Sprintf("%d/%x", sg.Algorithm, pub)
+				if !seenP[pk] {
+					if seenP[id] && vC14IsECDSA(sg.Algorithm) {
+						conflict = true
+					}
+					seenP[pk], seenP[id] = true, true
+					el = append(el, pk)
+				}
+				vk := fmt.Sprintf("(%s, %s, %s)", vC14Hex(pub), vC14Hex(sgRaw), vC14Bool(o.ecv || o.edv))
+				vid := fmt.Sprintf("%x/%x", pub, sgRaw)
+				if !seenV[vk] {
+					if seenV[vid] {
+						conflict = true
+					}
+					seenV[vk], seenV[vid] = true, true
+					vl = append(vl, vk)
+				}
+			}
+		}
+	}
+	return "[" + strings.Join(ol, "; ") + "]", "[" + strings.Join(el, "; ") + "]", "[" + strings.Join(vl, "; ") + "]", conflict
+}
 
 func vC14CaseMsg(tr *vC14Trace, r *rand.Rand, cheap []*vC14SigKey) {
+	if r.Intn(6) == 0 {
+		vC14CaseSynth(tr, r)
+		return
+	}
 	zone := vC14Name(r, 1+r.Intn(2))
 	key := cheap[r.Intn(len(cheap))]
-	var scns []*vC14Scn
-	for i := 0; i < 1+r.Intn(3); i++ {
-		s := vC14NewScn(r, key)
-		// move the scenario into one zone with one key
-		s.zone = zone
-		s.k = key.dnskey(zone, 257)
+	k := key.dnskey(zone, 257)
+	tag, _ := vC14LibKeyTag(k)
+	var ans, ns []vC14MItem
+	// sign makes the RRSIG of a set under the zone's key
+	sign := func(set []vC14RR) *vC14Scn {
+		h0 := set[0].rr.Header()
+		s := &vC14Scn{key: key, zone: zone, k: k, set: set}
+		s.sig = &dns.RRSIG{Hdr: dns.RR_Header{Name: vC14MixCase(r, h0.Name), Rrtype: dns.TypeRRSIG, Class: h0.Class, Ttl: h0.Ttl}, TypeCovered: h0.Rrtype, Algorithm: key.alg,
+			Labels: uint8(dns.CountLabel(h0.Name)), OrigTtl: h0.Ttl, Expiration: vC14Expiration, Inception: vC14Inception, KeyTag: tag, SignerName: vC14MixCase(r, zone)}
+		s.resign()
+		return s
+	}
+	add := func(sec *[]vC14MItem, set []vC14RR) {
+		for i := range set {
+			*sec = append(*sec, vC14MItem{rec: &set[i]})
+		}
+	}
+	what := "all-signed"
+	expect, sure := true, true // the generator's intent, where it knows
+	seenSet := map[string]bool{}
+	nsets := 1 + r.Intn(3)
+	for i := 0; i < nsets; i++ {
 		owner := zone
 		if r.Intn(2) == 0 {
 			owner = vC14Label(r) + "." + zone
 		}
-		s.set = vC14GenRRset(r, vC14MixCase(r, owner), dns.ClassINET)
-		h0 := s.set[0].rr.Header()
-		tag, _ := vC14LibKeyTag(s.k)
-		s.sig = &dns.RRSIG{Hdr: dns.RR_Header{Name: h0.Name, Rrtype: dns.TypeRRSIG, Class: dns.ClassINET, Ttl: h0.Ttl}, TypeCovered: h0.Rrtype, Algorithm: key.alg,
-			Labels: uint8(dns.CountLabel(h0.Name)), OrigTtl: h0.Ttl, Expiration: vC14Expiration, Inception: vC14Inception, KeyTag: tag, SignerName: zone}
-		s.resign()
-		scns = append(scns, s)
-	}
-	msg := new(dns.Msg)
-	what := "all-signed"
-	expect := true
-	seenSet := map[string]bool{}
-	for i, s := range scns {
-		h0 := s.set[0].rr.Header()
+		set := vC14GenRRset(r, vC14MixCase(r, owner), dns.ClassINET)
+		h0 := set[0].rr.Header()
 		id := fmt.Sprintf("%s/%d", strings.ToLower(h0.Name), h0.Rrtype)
-		if seenSet[id] { // two generated sets collapsed into one RRset: its signatures no longer cover it
-			return
+		if seenSet[id] || h0.Rrtype == dns.TypeRRSIG {
+			// two sets collapsing into one RRset would not be covered by either signature;
+			// a data record of type RRSIG is a signature to the walk
+			continue
 		}
 		seenSet[id] = true
-		if h0.Rrtype == dns.TypeCNAME || h0.Rrtype == dns.TypeDNAME || h0.Rrtype == dns.TypeRRSIG {
-			return // synthesis rules and RRSIG-typed records are other properties' business
+		if h0.Rrtype == dns.TypeCNAME || h0.Rrtype == dns.TypeDNAME {
+			sure = false // may or may not be a synthesis pair with another set: the reference walk decides
 		}
+		s := sign(set)
 		// authority-section data (anything but NS) is validated exactly like answer data
-		section := &msg.Answer
-		if h0.Rrtype != dns.TypeNS && r.Intn(4) == 0 {
-			section = &msg.Ns
+		sec := &ans
+		if r.Intn(4) == 0 {
+			sec = &ns
+			if h0.Rrtype == dns.TypeNS {
+				what = "authority-ns-set" // left alone, signed or not
+			}
 		}
-		*section = append(*section, vC14RRs(s.set)...)
-		switch r.Intn(11) {
+		inAuthorityNS := sec == &ns && h0.Rrtype == dns.TypeNS
+		add(sec, s.set)
+		switch r.Intn(24) {
 		case 9: // the only signature sits under a name outside the zone: it is not this RRset's
 			out := dns.Copy(s.sig).(*dns.RRSIG)
 			out.Hdr.Name = "other.invalid."
-			*section = append(*section, out)
-			what, expect = "signature-owned-outside-zone", false
+			*sec = append(*sec, vC14MItem{sig: out})
+			if !inAuthorityNS {
+				what, expect = "signature-owned-outside-zone", false
+			}
 			continue
 		case 10: // the only signature covers another type
 			other := dns.Copy(s.sig).(*dns.RRSIG)
 			other.TypeCovered++
-			*section = append(*section, other)
-			what, expect = "signature-covers-other-type", false
+			*sec = append(*sec, vC14MItem{sig: other})
+			if !inAuthorityNS {
+				what, expect = "signature-covers-other-type", false
+			}
+			continue
+		case 11: // one record of the set spells the owner in another case: the same RRset to the
+			// walk (it groups case-insensitively), not an RRset to the library's IsRRset
+			if len(s.set) > 1 {
+				alt := vC14MixCase(r, h0.Name)
+				if alt != h0.Name {
+					s.set[len(s.set)-1].rr.Header().Name = alt
+					if !inAuthorityNS {
+						what, expect = "owner-case-split", false
+					}
+				}
+			}
+		case 12: // the signature is filed in the other section: sections are searched together
+			other := &ns
+			if sec == &ns {
+				other = &ans
+			}
+			*other = append(*other, vC14MItem{sig: s.sig})
+			if what == "all-signed" {
+				what = "signature-in-other-section"
+			}
 			continue
 		case 0:
-			if i == len(scns)-1 || r.Intn(2) == 0 {
-				what, expect = "one-set-unsigned", false
+			if i == nsets-1 || r.Intn(2) == 0 {
+				if !inAuthorityNS {
+					what, expect = "one-set-unsigned", false
+				}
 				continue
 			}
 		case 1:
@@ -1495,68 +1744,242 @@ func vC14CaseMsg(tr *vC14Trace, r *rand.Rand, cheap []*vC14SigKey) {
 			raw[0] ^= 0x40
 			bad := dns.Copy(s.sig).(*dns.RRSIG)
 			bad.Signature = base64.StdEncoding.EncodeToString(raw)
+			*sec = append(*sec, vC14MItem{sig: bad})
 			if r.Intn(2) == 0 { // a bad sibling next to a good signature does not matter
-				*section = append(*section, bad)
-				what = "bad-sibling-signature"
+				if what == "all-signed" {
+					what = "bad-sibling-signature"
+				}
 			} else {
-				*section = append(*section, bad)
-				what, expect = "only-a-bad-signature", false
+				if !inAuthorityNS {
+					what, expect = "only-a-bad-signature", false
+				}
 				continue
 			}
 		case 2:
 			s.sig.Expiration = 1600000000
 			s.resign()
-			what, expect = "expired", false
+			if !inAuthorityNS {
+				what, expect = "expired", false
+			}
+		case 3: // the same signature twice
+			*sec = append(*sec, vC14MItem{sig: dns.Copy(s.sig).(*dns.RRSIG)})
 		}
-		*section = append(*section, s.sig)
+		*sec = append(*sec, vC14MItem{sig: s.sig})
 	}
-	switch r.Intn(8) {
+	// a DNAME of the zone and the CNAME synthesised from it (RFC 6672): the CNAME carries no signature
+	if r.Intn(4) == 0 {
+		downer := zone
+		if r.Intn(3) != 0 {
+			downer = vC14Label(r) + "." + zone
+		}
+		shape := r.Intn(8)
+		if shape == 6 { // a DNAME outside the zone authorises nothing
+			downer = vC14Label(r) + ".other.invalid."
+		}
+		target := vC14Name(r, 1+r.Intn(2))
+		id := fmt.Sprintf("%s/%d", strings.ToLower(downer), dns.TypeDNAME)
+		cl := vC14Label(r)
+		if r.Intn(3) == 0 {
+			cl = vC14Label(r) + "." + cl
+		}
+		cowner := cl + "." + downer
+		cid := fmt.Sprintf("%s/%d", strings.ToLower(cowner), dns.TypeCNAME)
+		if !seenSet[id] && !seenSet[cid] && !strings.Contains(cl, `\`) {
+			seenSet[id], seenSet[cid] = true, true
+			dh := dns.RR_Header{Name: vC14MixCase(r, downer), Rrtype: dns.TypeDNAME, Class: dns.ClassINET, Ttl: 300}
+			dset := []vC14RR{{&dns.DNAME{Hdr: dh, Target: target}, "DNAME", []vC14F{vC14FN(target)}}}
+			ctarget := vC14MixCase(r, cl+"."+target)
+			synth := "synthesised-cname"
+			switch shape {
+			case 0: // not what the substitution gives
+				ctarget = cl + "x." + target
+				synth = "cname-target-not-the-substitution"
+			case 1: // the CNAME sits at the DNAME owner itself: not a proper descendant
+				cowner, ctarget = downer, target
+				synth = "cname-at-dname-owner"
+			case 2: // relative spelling of the target: Fqdn is applied to both sides
+				ctarget = strings.TrimSuffix(ctarget, ".")
+				synth = "synthesised-cname-relative-target"
+			case 6:
+				synth = "dname-outside-zone"
+			}
+			ch := dns.RR_Header{Name: vC14MixCase(r, cowner), Rrtype: dns.TypeCNAME, Class: dns.ClassINET, Ttl: 300}
+			cset := []vC14RR{{&dns.CNAME{Hdr: ch, Target: ctarget}, "CNAME", []vC14F{vC14FN(ctarget)}}}
+			ds := sign(dset)
+			dsec := &ans
+			if r.Intn(5) == 0 {
+				dsec = &ns
+			}
+			add(dsec, ds.set)
+			if shape != 7 {
+				*dsec = append(*dsec, vC14MItem{sig: ds.sig})
+			} else {
+				synth = "dname-unsigned"
+			}
+			add(&ans, cset)
+			if r.Intn(6) == 0 { // a signed CNAME is fine either way
+				ans = append(ans, vC14MItem{sig: sign(cset).sig})
+				synth += "+cname-signed"
+			}
+			what += "+" + synth
+			sure = false
+		}
+	}
+	switch r.Intn(14) {
 	case 0: // a foreign record in the answer
-		msg.Answer = append(msg.Answer, &dns.A{Hdr: dns.RR_Header{Name: "foreign.invalid.", Rrtype: dns.TypeA, Class: dns.ClassINET, Ttl: 60}, A: []byte{192, 0, 2, 9}})
+		h := dns.RR_Header{Name: "foreign.invalid.", Rrtype: dns.TypeA, Class: dns.ClassINET, Ttl: 60}
+		ans = append(ans, vC14MItem{rec: &vC14RR{&dns.A{Hdr: h, A: []byte{192, 0, 2, 9}}, "A", []vC14F{vC14FB([]byte{192, 0, 2, 9})}}})
 		what, expect = what+"+foreign-answer-record", false
 	case 1: // a referral remnant in the authority section is ignored
-		msg.Ns = append(msg.Ns, &dns.NS{Hdr: dns.RR_Header{Name: "other.invalid.", Rrtype: dns.TypeNS, Class: dns.ClassINET, Ttl: 60}, Ns: "ns.other.invalid."})
+		h := dns.RR_Header{Name: "other.invalid.", Rrtype: dns.TypeNS, Class: dns.ClassINET, Ttl: 60}
+		ns = append(ns, vC14MItem{rec: &vC14RR{&dns.NS{Hdr: h, Ns: "ns.other.invalid."}, "NS", []vC14F{vC14FN("ns.other.invalid.")}}})
 		what += "+authority-remnant"
+	case 2: // so is out-of-zone data of another type there (the zone cut's DS denial)
+		h := dns.RR_Header{Name: "other.invalid.", Rrtype: dns.TypeTXT, Class: dns.ClassINET, Ttl: 60}
+		ns = append(ns, vC14MItem{rec: &vC14RR{&dns.TXT{Hdr: h, Txt: []string{"x"}}, "TXT", []vC14F{vC14FB(vC14CharStr("x"))}}})
+		what += "+authority-foreign-data"
+	case 3: // a name that only ends in the zone's text
+		if zone != "." {
+			h := dns.RR_Header{Name: "evil" + zone, Rrtype: dns.TypeA, Class: dns.ClassINET, Ttl: 60}
+			ans = append(ans, vC14MItem{rec: &vC14RR{&dns.A{Hdr: h, A: []byte{192, 0, 2, 9}}, "A", []vC14F{vC14FB([]byte{192, 0, 2, 9})}}})
+			what, expect = what+"+textual-suffix-answer-record", false
+		}
 	}
-	keyMap := map[uint16][]*dns.DNSKEY{}
-	k := key.dnskey(zone, 257)
-	tag, _ := vC14LibKeyTag(k)
-	keyMap[tag] = []*dns.DNSKEY{k}
+	keyMap := map[uint16][]*dns.DNSKEY{tag: {k}}
+	switch r.Intn(16) {
+	case 0: // a second candidate under the tag
+		o := cheap[r.Intn(len(cheap))]
+		keyMap[tag] = []*dns.DNSKEY{o.dnskey(zone, 257), k}
+	case 1: // the key is filed under another tag
+		keyMap = map[uint16][]*dns.DNSKEY{tag + 1: {k}}
+		if len(ans)+len(ns) > 0 {
+			sure = false
+		}
+		what += "+key-under-other-tag"
+	}
+	signer := zone
+	switch r.Intn(6) {
+	case 0:
+		signer = vC14MixCase(r, zone)
+	case 1:
+		signer = strings.TrimSuffix(zone, ".")
+	}
+	msg := new(dns.Msg)
+	msg.Answer, msg.Ns = vC14ItemsRR(ans), vC14ItemsRR(ns)
 	var ok bool
 	var err error
 	fail := ""
-	if p := vC14Guard(func() { ok, err = VerifyRRSIG(zone, keyMap, msg) }); p != "" {
+	if p := vC14Guard(func() { ok, err = VerifyRRSIG(signer, keyMap, msg) }); p != "" {
 		fail = "VerifyRRSIG panicked: " + p
 	}
-	// reference: every RRset of the answer has a signature the library accepts and that is in its validity period
-	ref := true
-	for _, s := range scns {
-		good := false
-		for _, rr := range append(append([]dns.RR{}, msg.Answer...), msg.Ns...) {
-			sg, isSig := rr.(*dns.RRSIG)
-			if !isSig || !strings.EqualFold(sg.Hdr.Name, s.set[0].rr.Header().Name) || sg.TypeCovered != s.set[0].rr.Header().Rrtype {
-				continue
-			}
-			if !dns.IsSubDomain(zone, sg.Hdr.Name) {
-				continue
-			}
-			if rok, _ := vC14RefVerify(k, sg, vC14RRs(s.set)); rok && sg.ValidityPeriod(time.Time{}) {
-				good = true
-			}
-		}
-		ref = ref && good
-	}
-	if strings.Contains(what, "foreign-answer-record") {
-		ref = false
-	}
+	got := ok && err == nil
+	ref, eq, groups := vC14RefWalk(signer, keyMap, msg.Answer, msg.Ns)
 	if fail == "" {
-		if (ok && err == nil) && !ref {
+		if got && !ref {
 			fail = "VerifyRRSIG accepted a message the reference rejects (" + what + ")"
-		} else if (ok && err == nil) != ref {
+		} else if eq && got != ref {
 			fail = fmt.Sprintf("VerifyRRSIG = (%v, %v), reference says %v (%s)", ok, err, ref, what)
-		} else if ref != expect {
+		} else if sure && ref != expect {
 			fail = "driver: the reference verdict differs from the generator's intent (" + what + ")"
 		}
 	}
-	tr.emit("msg-"+what, "", fail, true, map[string]any{"zone": zone, "rrsets": len(scns), "what": what, "ok": ok, "err": fmt.Sprint(err)})
+	orcs, ecp, ev, conflict := vC14MsgOracles(keyMap, groups, append(append([]vC14MItem{}, ans...), ns...))
+	coq := ""
+	if !conflict {
+		var ks []string
+		for t, l := range keyMap {
+			var p []string
+			for _, kk := range l {
+				p = append(p, vC14Key(kk))
+			}
+			ks = append(ks, fmt.Sprintf("(%d%%N, [%s])", t, strings.Join(p, "; ")))
+		}
+		coq = fmt.Sprintf("CaseMsg %s [%s] %s %s %s %s %s %s %s %s", vC14Str(signer), strings.Join(ks, "; "), vC14ItemsCoq(ans), vC14ItemsCoq(ns), orcs, ecp, ev,
+			vC14Bool(got), vC14Bool(ref), vC14Bool(eq))
+	}
+	tr.emit("msg-"+what, coq, fail, true, map[string]any{"zone": zone, "signer": signer, "answer": len(ans), "authority": len(ns), "rrsets": len(groups), "what": what, "ok": ok, "err": fmt.Sprint(err), "reference": ref})
+}
+
+// ---- isSynthesizedCNAME and internal/dnsname.CompareSuffix on their own
+
+func vC14CaseSynth(tr *vC14Trace, r *rand.Rand) {
+	nm := func() string {
+		if r.Intn(4) == 0 {
+			return vC14OddName(r)
+		}
+		return vC14MixCase(r, vC14Name(r, r.Intn(5)))
+	}
+	// CompareSuffix: related names (one an ancestor / sibling of the other) and unrelated ones
+	a := nm()
+	b := nm()
+	switch r.Intn(4) {
+	case 0:
+		b = vC14MixCase(r, vC14Label(r)+"."+a)
+	case 1:
+		b = vC14MixCase(r, a)
+	case 2:
+		if idx := dns.Split(a); len(idx) > 1 {
+			b = vC14Label(r) + "." + a[idx[1+r.Intn(len(idx)-1)]:]
+		}
+	}
+	if r.Intn(2) == 0 {
+		a, b = b, a
+	}
+	var n, lib int
+	fail := ""
+	if p := vC14Guard(func() { n = dnsname.CompareSuffix(a, b) }); p != "" {
+		fail = "CompareSuffix panicked: " + p
+	}
+	wellFormed := func(s string) bool { _, ok := dns.IsDomainName(s); return ok && dns.IsFqdn(s) }
+	vC14Guard(func() { lib = dns.CompareDomainName(a, b) })
+	if fail == "" && wellFormed(a) && wellFormed(b) && n != lib {
+		fail = fmt.Sprintf("CompareSuffix(%q, %q) = %d, dns.CompareDomainName = %d", a, b, n, lib)
+	}
+	tr.emit("suffix", fmt.Sprintf("CaseSuffix %s %s %d %d %s", vC14Str(a), vC14Str(b), n, lib, vC14Bool(wellFormed(a) && wellFormed(b))), fail, true, map[string]any{"a": a, "b": b, "shared": n, "lib": lib})
+
+	// isSynthesizedCNAME
+	var dn []*dns.DNAME
+	var pairs [][2]string
+	var dcoq []string
+	for i := 0; i < 1+r.Intn(3); i++ {
+		o, t := vC14MixCase(r, vC14Name(r, r.Intn(4))), vC14Name(r, 1+r.Intn(2))
+		dn = append(dn, &dns.DNAME{Hdr: dns.RR_Header{Name: o, Rrtype: dns.TypeDNAME, Class: dns.ClassINET}, Target: t})
+		pairs = append(pairs, [2]string{o, t})
+		dcoq = append(dcoq, fmt.Sprintf("(%s, %s)", vC14Str(o), vC14Str(t)))
+	}
+	d := pairs[r.Intn(len(pairs))]
+	lbl := vC14Label(r)
+	for strings.Contains(lbl, `\`) {
+		lbl = vC14Label(r)
+	}
+	owner, target := lbl+"."+d[0], lbl+"."+d[1]
+	if d[0] == "." {
+		owner = lbl + "."
+	}
+	switch r.Intn(6) {
+	case 0:
+		target = lbl + "x." + d[1]
+	case 1:
+		owner, target = d[0], d[1]
+	case 2:
+		owner = vC14MixCase(r, owner)
+		target = strings.TrimSuffix(vC14MixCase(r, target), ".")
+	case 3:
+		owner, target = "a."+owner, "a."+target
+	case 4:
+		owner = nm()
+	}
+	cn := &dns.CNAME{Hdr: dns.RR_Header{Name: owner, Rrtype: dns.TypeCNAME, Class: dns.ClassINET}, Target: target}
+	var got bool
+	fail = ""
+	if p := vC14Guard(func() { got = isSynthesizedCNAME(cn, dn) }); p != "" {
+		fail = "isSynthesizedCNAME panicked: " + p
+	}
+	ref := false
+	vC14Guard(func() { ref = vC14RefSynth(owner, target, pairs) })
+	if fail == "" && wellFormed(owner) && got != ref {
+		fail = fmt.Sprintf("isSynthesizedCNAME(%q -> %q) = %v, RFC 6672 substitution with the library's helpers says %v", owner, target, got, ref)
+	}
+	tr.emit("synth", fmt.Sprintf("CaseSynth %s %s [%s] %s %s %s", vC14Str(owner), vC14Str(target), strings.Join(dcoq, "; "), vC14Bool(got), vC14Bool(ref), vC14Bool(wellFormed(owner))), fail, true,
+		map[string]any{"owner": owner, "target": target, "dnames": pairs, "got": got, "ref": ref})
 }
